@@ -97,6 +97,10 @@ def raw_svg(draw):
     meta = draw(st.sampled_from(["", "<title>t</title>", "<style>.a{stroke:red}</style>", "<!-- inner -->"]))
     defs = ('<defs><linearGradient id="lg"><stop offset="0" stop-color="#f00"/><stop offset="1.0" stop-color="blue" stop-opacity="0.50"/></linearGradient>'
             '<clipPath id="cp"><circle cx="%d" cy="%d" r="%d"/></clipPath><rect id="r" width="10" height="10"/></defs>' % (x + w // 2, y + h // 2, w // 3))
+    if (x, y) == (0, 0) and draw(st.sampled_from([False, False, False, True])):
+        # the box declared by width/height alone (valid SVG; the user-space box is then 0 0 width height)
+        keep = extra if "width=" not in extra else ""
+        return '%s<svg xmlns="http://www.w3.org/2000/svg" xmlns:xlink="http://www.w3.org/1999/xlink" width="%d" height="%d"%s>%s%s%s</svg>' % (head, w, h, keep, meta, defs, body)
     return '%s<svg xmlns="http://www.w3.org/2000/svg" xmlns:xlink="http://www.w3.org/1999/xlink" viewBox="%d %d %d %d"%s>%s%s%s</svg>' % (head, x, y, w, h, extra, meta, defs, body)
 
 
@@ -183,7 +187,11 @@ def judge_raw(case, v):
             continue
         g = els[0]
         src_root = etree.fromstring(re.sub(r"^<\?xml[^>]*\?>", "", s["svg"]).encode("utf-8"))
-        vb = tuple(float(x) for x in src_root.get("viewBox").split())
+        if src_root.get("viewBox") is not None:
+            vb = tuple(float(x) for x in src_root.get("viewBox").split())
+        else:  # no viewBox attribute: the box is 0 0 width height (SVG 1.1, 7.7 / 7.2)
+            v.cls("raw:no-viewBox-attribute")
+            vb = (0.0, 0.0, float(src_root.get("width")), float(src_root.get("height")))
         adv = font["hmtx"][gname][0]
         if not advance_ok(cfg, vb, adv):
             v.fail("advance", "advance-rule", {"source": i, "got": adv, "vb": vb})
